@@ -19,13 +19,17 @@ def gen_chain(rng, i, tier):
     kind = ["vi", "rvi", "periodic", "semi", "pi", "vi", "semi"][i % 7]
     route = "restore" if rng.random() < 0.7 else "load"
     if route == "restore":
-        if rng.random() < 0.6:
+        if rng.random() < 0.6 and kind != "periodic":      # (Forest's period-span vanishes after a few sweeps: too easy for the periodic stopping rule)
             prob = {"op": "shipped", "id": f"p{i}", "target": FOREST, "kwargs": {"S": rng.choice([3, 5, 7]), "p": 0.125, "r1": 6.0, "r2": 3.0}}
             S = prob["kwargs"]["S"]
         else:
             kw = {"max_demand": 4, "max_useful_life": 2, "lead_time": 1, "max_order_quantity": 2, "demand_gamma_mean": 1.5}
-            prob = {"op": "shipped", "id": f"p{i}", "target": DEMOOR, "kwargs": kw}
             S = 9
+            if kind == "periodic":
+                # an instance whose period-span decays gradually (about 10 sweeps to 1e-6), so that the stopping iteration is informative
+                kw = {"max_demand": 6, "max_useful_life": 3, "lead_time": 1, "max_order_quantity": 4, "demand_gamma_mean": 2.0}
+                S = 125
+            prob = {"op": "shipped", "id": f"p{i}", "target": DEMOOR, "kwargs": kw}
         cfg = 1
     else:
         spec = gen.gen_spec(rng, smax=6, kind="unichain", denom=4, R=5)
@@ -36,20 +40,37 @@ def gen_chain(rng, i, tier):
     if kind == "rvi":
         new["gamma"] = "1"
     if kind == "periodic":
-        new.update(gamma="1", period=rng.randint(2, 3), clear=0)
+        # discounted runs too: their measure depends on the absolute iteration number, which a resumed process must carry over
+        new.update(gamma=rng.choice(["3/4", "9/10"]) if (i // 7) % 2 == 0 else "1", period=rng.randint(2, 3), clear=0)
     if kind == "pi":
         new.update(budget=rng.choice([2, 5]), reset=rng.randint(0, 1), eps="1/64")
     if kind == "semi":
         new.update(shuffle=0)
     nint = rng.choice([1, 1, 2, 3]) if tier == "quick" else rng.choice([1, 2, 3])
     ks = [rng.randint(1, 6) for _ in range(nint)] + [rng.randint(2, 8)]
+    conv_mode = (i % 2 == 0 and kind != "pi")
+    if conv_mode:
+        # the last leg runs to (reported) convergence: the stopping iteration itself must survive the interruptions; the interruption
+        # points are placed below the convergence iteration of a preliminary uninterrupted run (see run_chain)
+        new["eps"] = rng.choice(["1/1024", "1/1048576"])
+        ks[-1] = 80
     ck = {"f": rng.choice([1, 2, 3]), "m": rng.choice([1, 2]), "async": rng.randint(0, 1)}
-    return {"i": i, "kind": kind, "route": route, "prob": prob, "new": new, "ks": ks, "ck": ck, "cfg": cfg}
+    return {"i": i, "kind": kind, "route": route, "prob": prob, "new": new, "ks": ks, "ck": ck, "cfg": cfg, "conv_mode": conv_mode, "rseed": rng.randrange(10 ** 6)}
 
 
 def run_chain(ch, base):
     """returns list of (ops, responses) per process, in order"""
     i, new, ks = ch["i"], ch["new"], ch["ks"]
+    if ch.get("conv_mode"):
+        pre = [r["resp"] for r in core.run_impl([{"op": "basedir", "path": base}, dict(ch["prob"]), dict(new, sid="P", f=0), {"op": "solve", "sid": "P", "k": 80}], 1)]
+        dp = core.parse_resp(pre[-1])
+        if dp.get("conv") == "true" and int(dp["iter"]) >= 2:
+            r2 = random.Random(ch["rseed"])
+            nstar = int(dp["iter"])
+            cuts = sorted(set(r2.randint(1, nstar - 1) for _ in range(len(ks) - 1)))
+            ks = [b - a for a, b in zip([0] + cuts, cuts)] + [80]
+            ch["ks"] = ks
+            ch["nstar"] = nstar
     procs = []
     # A: uninterrupted, no checkpointing, same split of calls so that intermediate states are comparable too
     opsA = [{"op": "basedir", "path": base}, dict(ch["prob"]), dict(new, sid=f"A{i}", f=0)]
@@ -117,7 +138,8 @@ def run(tier, seed):
             if "values" not in di:
                 res.disagreements.append({"channel": "C09/solve", "case": case, "model": (m or "")[:200], "impl": i[:300], "failing_input": True, "what": "solve raised", "key": "solve:error"})
                 continue
-            if m is not None and tab is not None:
+            noisy = ch["kind"] == "periodic" and ch["new"]["gamma"] != "1" and int(di["iter"]) > 22    # measure amplifies rounding by gamma^-(n-1)
+            if m is not None and tab is not None and not noisy:
                 new = dict(ch["new"], solver=ch["kind"])
                 for key, fail in compare_state(res, op, new, tab, m, i, line, 1, int(di["iter"])):
                     if key == "policy" and op["_role"] == "B":
@@ -132,7 +154,9 @@ def run(tier, seed):
             if j > 0:
                 res.nontrivial.add((ch["i"], j, ch["kind"], ch["route"]))
                 res.count(f"resumed:{ch['kind']}:{ch['route']}")
-            keys = ("iter", "conv", "values", "policy", "gain", "hidx", "hist")
+                if da.get("conv") == "true" and int(da.get("sweeps", 0)) > 0:
+                    res.count(f"converged-in-a-resumed-leg:{ch['kind']}" + (":discounted" if ch["new"]["gamma"] != "1" else ""))
+            keys = ("iter", "conv", "values", "policy", "gain", "hidx", "hist", "lastmeasure")     # lastmeasure: the logged convergence measure of the leg's last sweep
             diff = [k for k in keys if da.get(k) != db.get(k)]
             if diff:
                 res.disagreements.append({"channel": "C09/resume-vs-uninterrupted", "case": {"chain": {k: v for k, v in ch.items() if k != "prob"}, "leg": j},
